@@ -533,9 +533,9 @@ def random_jobs(tier):
                 for m, md in enumerate(MIN_DIST):
                     pos, r = diag[(i + m) % 3]
                     out.append(((kind, sector, pos, r, rot, md), 1, 2, 0))
-        plan = [(RANDOM_KINDS, diag[1:2], [0, 45, 17], [0.3], 2, 2),
-                (RANDOM_KINDS, diag[1:2], [45], [0.7], 1, 3),
-                (RANDOM_KINDS, diag[2:3], [17], [0.3], 1, 3),
+        plan = [(RANDOM_KINDS, diag[1:], [0, 45, 17], [0.3], 2, 2),
+                (RANDOM_KINDS, diag, [45], [0.7], 1, 3),
+                (RANDOM_KINDS, diag, [17], [0.3], 1, 3),
                 (RANDOM_KINDS[:2], diag[1:2], [45], [0.3], 1, 4)]
     for sc in SCALES:
         for kind, sector in RANDOM_KINDS:
@@ -1244,6 +1244,7 @@ def run_cluster_sequence(chk, seq):
     built any cluster yet (the caller guarantees that: these jobs run first in every worker)"""
     import os
     import pickle
+    from pyphysim.cell import cell  # noqa: F401  (module import only; no cluster is built in this process)
     rfd, wfd = os.pipe()
     pid = os.fork()
     if pid == 0:
@@ -1541,6 +1542,9 @@ def run_job(chk, job, shard_i=0, shard_n=1):
 
 
 def main(chk: Check):
+    # import the modules under test (and matplotlib behind them) ONCE, before any fork
+    from pyphysim.cell import cell, shapes  # noqa: F401
+    from pyphysim.pointprocess import pointprocess  # noqa: F401
     tier = chk.tier
     rj = random_jobs(tier)
     plan = sorted(set((n, b) for _, n, b, _ in rj))
